@@ -13,7 +13,8 @@ PROP = {
                 "transaction's operations. Every 25th case is concurrent (writers on other keys, flushes, background "
                 "flusher on/off, while full/range/read-only-tx scans run): oracle only. non-trivial = data in >= 2 sources and "
                 "(a key with versions in >= 2 sources or a tombstone) and >= 2 live keys and >= 3 iterator operations; "
-                "concurrent: > 20 writes during the scans and >= 3 old live keys; distinct by case text",
+                "concurrent: > 20 writes during the scans and >= 3 old live keys; distinct by case text"
+                " Added later: directed interleavings in the concurrent cases (another client's write between iterator creation and positioning, latest values only in the active memtable) and an explicit stack with a table of more than 16 data blocks.",
         "assumptions": ["as C01 (background flush parked, age-based switching off) for the sequential cases",
                         "keys are non-empty (service limit 1..4096 bytes): a nil key would read as 'no previous key' in "
                         "HierarchicalIterator.findNextUniqueKey",
